@@ -188,10 +188,10 @@ def baseline_ok(work, dst):
     tmp = os.path.join(dst, "tmp")
     os.makedirs(tmp, exist_ok=True)
     # only the 43 stable-pass tests (the other tests need the network), stopping at the first failure
-    ids = [t.split("::")[0].replace(".", "/") + ".py::" + t.split("::", 1)[1] for t in base["stable_pass"] if "parallelroads" not in t]
+    ids = [t.split("::")[0].replace(".", "/") + ".py::" + t.split("::", 1)[1] for t in base["stable_pass"]]
     subprocess.run(["/venv/bin/python", "-m", "pytest", "-q", "-p", "no:cacheprovider", "--timeout=300", "-x",
                     f"--junitxml={junit}"] + ids, cwd=work,
-                   stdout=subprocess.DEVNULL, stderr=subprocess.DEVNULL, env=dict(os.environ, PYTHONPATH=work))
+                   stdout=subprocess.DEVNULL, stderr=subprocess.DEVNULL, env=dict(os.environ, PYTHONPATH=work, TMPDIR=tmp))
     ok = set()
     try:
         for tc in ET.parse(junit).getroot().iter("testcase"):
@@ -200,8 +200,7 @@ def baseline_ok(work, dst):
     except Exception:
         return False, ["junit missing"]
     missing = [t for t in base["stable_pass"] if t not in ok]
-    # test_parallelroads shares a /tmp sqlite file between concurrent pytest runs: its failures alone do not count
-    missing = [t for t in missing if "parallelroads" not in t]
+    # (tests/test_parallelroads.py writes <tmp>/map.sqlite: the private TMPDIR keeps concurrent runs apart)
     return not missing, missing
 
 
